@@ -31,6 +31,11 @@ def build(mod, agg: dict, *, tier: str, seed: int, wall_s: float, n_viol: int, r
         "harness_errors": len(agg["errors"]),
         "exhaustive": bool(getattr(mod, "EXHAUSTIVE", {}).get(tier, False)),
     }
+    if agg.get("max_runs") is not None:
+        # a work-bounded batch: the amount of work is a function of the seed, not of the speed of the machine
+        cov["work_bound"] = {"max_runs": agg["max_runs"], "completed": runs >= agg["max_runs"] and not agg.get("cut_by_wall_cap"), "cut_by_wall_cap": bool(agg.get("cut_by_wall_cap"))}
+    else:
+        cov["work_bound"] = {"max_runs": None, "bounded_by": "wall budget"}
     if agg.get("optimize_batch"):
         cov["interpreter_configurations"] = ["default", agg["optimize_batch"]]
     if hasattr(mod, "evidence_extra"):
